@@ -1228,6 +1228,23 @@ class DiskRefsContainer(RefsContainer):
                 raise IsADirectoryError(filename)
         return packed_refs
 
+    def _remove_empty_dirs_in_the_way(self, filename: bytes) -> None:
+        """Remove a tree of empty directories where a ref file is to be written.
+
+        Such directories are left behind by operations on refs below this
+        name that did not end up creating a ref (e.g. a failed
+        compare-and-swap on refs/heads/a/b leaves refs/heads/a/ behind), and
+        would otherwise make writing the ref fail with IsADirectoryError.
+        Directories that still contain refs are left alone.
+        """
+        if not os.path.isdir(filename) or os.path.islink(filename):
+            return
+        for dirpath, _dirnames, _filenames in os.walk(filename, topdown=False):
+            try:
+                os.rmdir(dirpath)
+            except OSError:
+                return
+
     def _remove_packed_ref(self, name: Ref) -> None:
         if name not in self.get_packed_refs():
             return
@@ -1279,6 +1296,7 @@ class DiskRefsContainer(RefsContainer):
         self._check_refname(other)
         filename = self.refpath(name)
         self._check_packed_refs_conflict(name, filename)
+        self._remove_empty_dirs_in_the_way(filename)
         f = GitFile(filename, "wb")
         try:
             f.write(SYMREF + other + b"\n")
@@ -1336,6 +1354,7 @@ class DiskRefsContainer(RefsContainer):
         packed_refs = self._check_packed_refs_conflict(realname, filename)
 
         ensure_dir_exists(os.path.dirname(filename))
+        self._remove_empty_dirs_in_the_way(filename)
         with GitFile(filename, "wb") as f:
             if old_ref is not None:
                 try:
@@ -1412,6 +1431,7 @@ class DiskRefsContainer(RefsContainer):
         filename = self.refpath(realname)
         self._check_packed_refs_conflict(realname, filename)
         ensure_dir_exists(os.path.dirname(filename))
+        self._remove_empty_dirs_in_the_way(filename)
         with GitFile(filename, "wb") as f:
             if os.path.exists(filename) or name in self.get_packed_refs():
                 f.abort()
@@ -1480,7 +1500,11 @@ class DiskRefsContainer(RefsContainer):
 
             # remove the reference file itself
             try:
-                found = os.path.lexists(filename)
+                # A directory here is not this ref but holds refs below it
+                # (or is left over from them).
+                found = os.path.lexists(filename) and (
+                    os.path.islink(filename) or not os.path.isdir(filename)
+                )
             except OSError:
                 # may only be packed, or otherwise unstorable
                 found = False
